@@ -309,7 +309,7 @@ def robustness_stream(ctx):
     outs = []
     for i in range(0, len(cases), 20):
         outs += ctx.impl_run('sched_impl', cases[i:i + 20])
-    stat = {'cases': len(cases), 'returned': 0, 'runtime_error': 0, 'crash': 0, 'timeout': 0, 'not_built': 0}
+    stat = {'cases': len(cases), 'last_day_cases': sum(1 for c in cases if c.get('last_day')), 'returned': 0, 'runtime_error': 0, 'crash': 0, 'timeout': 0, 'not_built': 0}
     for c, o in zip(cases, outs):
         if not o.get('outcome_only'):
             stat['not_built'] += 1
